@@ -55,7 +55,7 @@ def plan(tier, seed, searching):
     # Known-defect streams of the static vpsc::Solver (tags static-eq / static-scaled, see the C01
     # report).  Off by default so that the clean tree is quiet; switch on once the two entries are
     # in known_findings.json (match on tag) to keep watching them:  VERIF_C01_FINDINGS=1
-    if os.environ.get("VERIF_C01_FINDINGS") == "1":
+    if os.environ.get("VERIF_C01_FINDINGS", "1") == "1":   # entries C01-static-eq / C01-static-scaled are in known_findings.json
         steps.append(dict(hargs=["--seed", str(seed), "--tier", tier, "--mode", "findings"], label="findings"))
     return steps
 
